@@ -88,6 +88,16 @@ CYCLES = {
                                            "(ev/spawn (protect (ev/read a 10))) (ev/spawn (protect (ev/write a (string/repeat \"x\" 400000)))) "
                                            "(ev/sleep 0.001) (:close a) (ev/sleep 0.001) (:close c) (:close s))",
     "thread-chan-cancelled-waiter-then-close": "(let [c (ev/thread-chan 0) f (ev/spawn (protect (ev/take c)))] (ev/sleep 0) (ev/cancel f :stop) (ev/sleep 0) (ev/chan-close c))",
+    # an abandoned wait on a thread channel leaves its entry (and the root taken for it) behind until traffic on
+    # the channel consumes the entry: the waiter's thread then finds it stale, routes the item on and drops the root
+    "thread-chan-abandoned-take-then-traffic": "(let [c (ev/thread-chan 0)] (protect (ev/with-deadline 0.001 (ev/take c))) (ev/spawn (ev/give c 1)) (ev/sleep 0) (ev/take c))",
+    "thread-chan-cancelled-taker-then-traffic": "(let [c (ev/thread-chan 0) f (ev/spawn (protect (ev/take c)))] (ev/sleep 0) (ev/cancel f :stop) (ev/sleep 0) (ev/spawn (ev/give c 1)) (ev/sleep 0) (ev/take c))",
+    "thread-chan-lost-select-clause-then-traffic": "(let [c (ev/thread-chan 0) d (ev/chan 0)] (ev/spawn (ev/select c d)) (ev/sleep 0) (ev/give d 1) (ev/spawn (ev/give c 2)) (ev/sleep 0) (ev/take c))",
+    "thread-chan-cancelled-giver-then-traffic": "(let [c (ev/thread-chan 0) f (ev/spawn (protect (ev/give c 1)))] (ev/sleep 0) (ev/cancel f :stop) (ev/sleep 0) (ev/take c) (ev/spawn (ev/give c 2)) (ev/sleep 0) (ev/take c))",
+    # a deadline whose body has finished is dropped as soon as the loop meets it on top of the timer heap - here
+    # while the task waits for a child, with no other timer pending - not when it expires half a minute later
+    "deadline-long-then-proc-wait": "(do (ev/with-deadline 30 (+ 1 1)) (os/execute [\"sim-child\" \"s1\" \"x0\"] :p))",
+    "deadline-long-explicit-tocheck-then-proc-wait": "(let [f (coro (+ 1 1))] (ev/deadline 30 nil f) (resume f) (os/execute [\"sim-child\" \"s1\" \"x0\"] :p))",
     "thread-chan-cancelled-giver-then-close": "(let [c (ev/thread-chan 0) f (ev/spawn (protect (ev/give c 1)))] (ev/sleep 0) (ev/cancel f :stop) (ev/sleep 0) (ev/chan-close c))",
     "chan-cancelled-waiter-then-close": "(let [c (ev/chan 0) f (ev/spawn (protect (ev/take c)))] (ev/sleep 0) (ev/cancel f :stop) (ev/sleep 0) (ev/chan-close c))",
     "spawn-file-redirect": "(let [f (file/open \"/dev/null\" :w) p (os/spawn [\"sim-child\" \"w10\" \"x0\"] :p {:out f})] (os/proc-wait p) (os/proc-close p) (file/close f))",
